@@ -284,7 +284,9 @@ func (n *Name) Substitute(old, new Name) {
 			n.Ident = new.Ident
 			n.ChannelID = new.ChannelID
 		}
-	} else if !n.Initialized() && n.Ident == old.Ident {
+	} else if !n.Initialized() && !old.Initialized() && n.Ident == old.Ident {
+		// A name without a channel is a variable: it can only stand for another variable,
+		// never for an initialised channel that happens to carry the same identifier
 		n.Ident = new.Ident
 		n.Channel = new.Channel
 		n.ChannelID = new.ChannelID
